@@ -224,7 +224,7 @@ func main() {
 		samples = append(samples, s)
 	}
 
-	fmt.Printf("C04 chain sweep: %d chains (N=1..%d x rel/abs x file/dir), %d evaluations; Stat(c1) succeeds up to N=%d on the kernel, N=%d on MemFS; EvalSymlinks up to N=%d (filepath), N=%d (MemFS)\n",
+	fmt.Printf("C04 chain sweep: %d chains (N=1..%d x rel/abs x same-directory/cross-directory x file/dir), %d evaluations; Stat(c1) succeeds up to N=%d on the kernel, N=%d on MemFS; EvalSymlinks up to N=%d (filepath), N=%d (MemFS)\n",
 		cst.Configs, chainMax, cst.Evals, cst.KernelStatMax, cst.AvfsStatMax, cst.FilepathEvalMax, cst.AvfsEvalMax)
 
 	// ---- graph stages ----
@@ -492,7 +492,7 @@ func main() {
 		Coverage: map[string]any{
 			"states": states, "transitions": evalsAll, "traces_validated_against_impl": evalsAll,
 			"evaluations": evalsAll, "distinct_nontrivial": len(classes),
-			"rule": "states = distinct configurations built on both sides (link graphs: every assignment of placement {R, R/d} x target shape to the link names; moved graphs: a graph x one move - a fixed sequence of Rename calls applied to both sides after the last Symlink: the link to the other directory, there and back, the directory R/d renamed, there and back, R/dd taking the old name of R/d, the root R renamed; spelled graphs (stage S): the target of the link is an unclean spelling of a target shape - the shape with a trailing /, a trailing //, a trailing /., a leading ./ (// after the root for an absolute target) or its inner separator doubled; plus link chains of length 1..70); " +
+			"rule": "states = distinct configurations built on both sides (link graphs: every assignment of placement {R, R/d} x target shape to the link names; moved graphs: a graph x one move - a fixed sequence of Rename calls applied to both sides after the last Symlink: the link to the other directory, there and back, the directory R/d renamed, there and back, R/dd taking the old name of R/d, the root R renamed; spelled graphs (stage S): the target of the link is an unclean spelling of a target shape - the shape with a trailing /, a trailing //, a trailing /., a leading ./ (// after the root for an absolute target) or its inner separator doubled; plus link chains of length 1..70, all in one directory or alternating between R and R/d so that every target leaves the directory of its link); " +
 				"transitions = evaluations = one call on one query path in one configuration, executed on MemFS and on tmpfs and compared (outcome kind, returned value, and for mutating calls the whole trees); the calls Chdir+probes and Open+File.Chdir+probes make what the query resolves to the working directory (Chdir(q); f = Open(q), f.Chdir(), f.Close()) and then ask " + enterProbeList() + " from inside - the answers are one compared value - and change the working directory back; in the flag stages (F, F4, F2) the calls are Lstat and OpenFile(path, flags, 0644)+Close for each of the 24 flag sets {O_RDONLY,O_WRONLY,O_RDWR} x {-,O_EXCL} x {-,O_CREATE} x {-,O_TRUNC}, every one treated as mutating (pristine trees, whole trees compared afterwards: what was created or truncated, and where); " +
 				"distinct_nontrivial = distinct (call, kernel outcome, class of the query's final component: file|dir|link>file|link>dir|link>dangling|link>loop|missing; chain-length class for the sweep) classes observed",
 			"samples": samples, "exhaustive": exh,
